@@ -88,6 +88,11 @@ class World:
         self.s_grown.add_schema(Schema([Rule(["x"], Value.dtype.equal_to(int), cast=dict(INT)),
                                         Rule(["flag"], Value.dtype.equal_to(bool), cast=dict(BOOL))]), DataPath("m"))
         self.s_grown.add_schema(Schema([Rule(["flag"], Value.dtype.equal_to(bool), cast=dict(BOOL))]), DataPath(MapOrListValue()))
+        # a fan-out cast rule that meets a castable string *before* a container, and a deeper cast rule into that container
+        self.s_wild = Schema([Rule([MapValue()], Value.dtype.in_([int, dict, list]), cast=dict(INT)),
+                              Rule(["opts", "level"], Value.dtype.equal_to(int), cast=dict(INT)),
+                              Rule([MapValue(), ListValue()], Value.dtype.equal_to(bool), cast=dict(BOOL))])
+        self.d5 = {"count": "3", "opts": {"level": "7", "k": "x"}, "flags": ["true", "no"], "z": "zz"}
         self.rules = self.s_cast.rules + self.s_path.rules
         self.d1 = {"m": {"x": "3", "flag": "true"}, "a": 1, "b": 1, "lo": 0, "lst": [1, "x", -2], "n": 4, "bits": [1, True, 2.5, "7", False],
                    "w": {"flag": "3", "x": "true"}, "tbl": [[1, 2], [3, 4], [5, 6]]}
@@ -97,7 +102,7 @@ class World:
         self.d4 = Data(["p", "q", "r", {"a": 1}])
 
     def roots(self):
-        return [self.a, self.b, self.ab, self.k, self.part, self.part2, self.mpart, self.pa, self.rows, self.s_cast, self.s_path, self.s_doc, self.s_one, self.ones, self.d4, self.s_user, self.user_cast, self.s_grown,
+        return [self.a, self.b, self.ab, self.k, self.part, self.part2, self.mpart, self.pa, self.rows, self.s_cast, self.s_path, self.s_doc, self.s_one, self.ones, self.d4, self.s_user, self.user_cast, self.s_grown, self.s_wild, self.d5,
                 self.d1, self.d2, self.d3]
 
 
@@ -137,6 +142,8 @@ def menu():
         ops.append(("validate path", di, lambda w, di=di: obs_validated(w.s_path.validate(w.docs[di]))))
         for ri in range(9):
             ops.append(("test r%d" % ri, di, lambda w, di=di, ri=ri: obs_ruletest(w.rules[ri].test(w.docs[di]))))
+    ops.append(("validate wild", None, lambda w: obs_validated(w.s_wild.validate(w.d5))))
+    ops.append(("test wild rules", None, lambda w: tuple(obs_ruletest(r.test(w.d5)) for r in w.s_wild.rules)))
     ops.append(("filter k", 0, lambda w: obs_filtered(w.k.filter(w.d1))))
     ops.append(("mpart.filter", 2, lambda w: obs_filtered(w.mpart.filter(w.d3))))
     ops.append(("Data.get", 2, lambda w: vsnap(w.d3.get(DataPath("b", ListValue()), return_paths=True))))
